@@ -79,9 +79,13 @@ def constructor_rules(rnd):
     except ValueError: pass
     if not Screen(observations=np.ones(n), **kw).observation_mask.all(): return "observations without mask not all observed"
     if Screen(**kw).observation_mask.any(): return "no observations but something observed"
-    s = Screen(observations=np.arange(4.0), observation_mask=np.zeros(n, bool), **kw)
-    m = np.array([False, False, True, True]); s.set_observed(m, np.array([7.0, 9.0]))
-    if s.observations.tolist() != [0.0, 1.0, 7.0, 9.0] or s.observation_mask.tolist() != [False, False, True, True]: return "set_observed did not store exactly the given values at the selected rows"
+    for m in ([False, False, True, True], [False, True, False, True], [True, False, False, True], [False, True, True, True], [True, True, True, True], [False] * 4):
+        s = Screen(observations=np.arange(4.0), observation_mask=np.zeros(n, bool), **kw)
+        m = np.array(m); vals = np.array([7.0, 9.0, 11.0, 13.0][: int(m.sum())])
+        want = np.arange(4.0); want[m] = vals
+        s._observation_mask = np.zeros(n, bool)
+        s.set_observed(m, vals)
+        if s.observations.tolist() != want.tolist() or s.observation_mask.tolist() != m.tolist(): return "set_observed did not store exactly the given values at the selected rows %r" % (m.tolist(),)
     z = Screen(observations=np.array([0., 0., 1., np.nan]), observation_mask=np.zeros(n, bool), **kw)
     for ids in ([0], [1]):
         try: reveal_plates(z, ids); return "reveal of all-zero / NaN plate accepted"
